@@ -35,6 +35,31 @@ func goEnv() []string {
 	return append(env, "GOWORK=off", "GOFLAGS=-mod=readonly", "GOPROXY=off", "GOTOOLCHAIN=go1.25.5")
 }
 
+// TypeInv: a data-structure invariant of an encapsulated type (//kvc:typeinv <Type> <constructor>...), given as a
+// nullary boolean spec function quantifying over all allocated objects of the type. kvc assumes it at function entry
+// and after every call whose contract is ModifiesAll. Justification, checked syntactically at load time (Breaches):
+// outside the type's own methods and the named constructors nobody writes a field of the type, takes its address,
+// lets a field value escape or builds a value of the type - so only functions that are proved to re-establish the
+// invariant (they carry it as a postcondition) can change the state it talks about.
+type TypeInv struct {
+	Type     *types.Named
+	Pkg      *packages.Package
+	Decl     *ast.FuncDecl
+	Ctors    map[string]bool
+	Breaches []string
+}
+
+// FinalField: a struct field that is assigned only when its object is built (//kvc:final <Type>.<field> ...): a call whose
+// contract is ModifiesAll leaves it unchanged on every object that existed before the call. Justified by a syntactic
+// scan on every load (Breaches): no assignment to the field and no address-of anywhere in the package's sources.
+type FinalField struct {
+	Key      string // heap key
+	PkgPath  string
+	Name     string // Type.field
+	Sort     types.Type
+	Breaches []string
+}
+
 type modelDef struct {
 	Decl *ast.FuncDecl
 	Pkg  *packages.Package
@@ -76,11 +101,14 @@ type Spec struct {
 	Ensures  []Clause
 	Modifies []ast.Expr
 	ModAll   bool // vs.ModifiesAll(): callee may change any heap location
-	Allocs   bool
-	Trusted  bool     // contract on a function with no body in the repo (assumed)
-	Effect   bool     // vs.Effect(): an externally visible effect (crash points are checked after it)
-	Monitors []Clause // vs.Monitor(label, expr): must hold at entry and after every effectful call
-	Witness  []Clause // vs.Witness(label, expr): terms whose model values are reported for failed postconditions
+	// UsesTypeInv (vs.TypeInvariants()): the proof of this function relies on the declared type invariants
+	// (assumed at entry and after ModifiesAll calls; the encapsulation scan becomes an obligation of this function)
+	UsesTypeInv bool
+	Allocs      bool
+	Trusted     bool     // contract on a function with no body in the repo (assumed)
+	Effect      bool     // vs.Effect(): an externally visible effect (crash points are checked after it)
+	Monitors    []Clause // vs.Monitor(label, expr): must hold at entry and after every effectful call
+	Witness     []Clause // vs.Witness(label, expr): terms whose model values are reported for failed postconditions
 }
 
 type LoopSpec struct {
@@ -102,10 +130,10 @@ type FuncInfo struct {
 	Model *ast.FuncDecl // for KModel
 	// Models: one trusted model per spec package; a caller uses the model of its own package when there is one
 	Models map[string]modelDef
-	MPkg  *packages.Package
-	Loops []*LoopSpec
-	Ghost []*GhostSpec
-	Split bool
+	MPkg   *packages.Package
+	Loops  []*LoopSpec
+	Ghost  []*GhostSpec
+	Split  bool
 }
 
 // GhostSpec: ghost statements (a Go function from the contract file) executed
@@ -132,6 +160,8 @@ type Program struct {
 	Trusted  []string
 	PurePkgs map[string]bool
 	Axioms   map[string][]*ast.FuncDecl // package path -> axiom functions
+	TypeInvs []*TypeInv                 // //kvc:typeinv declarations
+	Finals   []*FinalField              // //kvc:final declarations
 }
 
 func isContractFile(name string) bool {
@@ -248,6 +278,59 @@ func (p *Program) parseContractFile(pk *packages.Package, f *ast.File) {
 						p.Trusted = append(p.Trusted, "contract of "+fi.Key+" (no body in repo, assumed)")
 					}
 				}
+			case "final":
+				for _, spec := range strings.Fields(rest) {
+					i := strings.Index(spec, ".")
+					if i < 0 {
+						p.problem("%s: //kvc:final wants Type.field", p.Fset.Position(c.Pos()))
+						continue
+					}
+					tn, _ := pk.Types.Scope().Lookup(spec[:i]).(*types.TypeName)
+					var fv *types.Var
+					if tn != nil {
+						if st, ok := tn.Type().Underlying().(*types.Struct); ok {
+							for k := 0; k < st.NumFields(); k++ {
+								if st.Field(k).Name() == spec[i+1:] {
+									fv = st.Field(k)
+								}
+							}
+						}
+					}
+					if fv == nil {
+						p.problem("%s: //kvc:final: unknown field %s", p.Fset.Position(c.Pos()), spec)
+						continue
+					}
+					ff := &FinalField{Key: fieldKey(structName(tn.Type()), fv.Name()), PkgPath: pk.PkgPath, Name: spec, Sort: fv.Type()}
+					if fv.Exported() {
+						ff.Breaches = append(ff.Breaches, "field "+spec+" is exported")
+					}
+					ff.Breaches = append(ff.Breaches, p.fieldAssignments(pk, fv)...)
+					p.Finals = append(p.Finals, ff)
+					p.Trusted = append(p.Trusted, "field "+spec+" is assigned only at construction (syntactic scan on every run); ModifiesAll calls keep it")
+				}
+			case "typeinv":
+				parts := strings.Fields(rest)
+				if owner == nil || len(parts) == 0 {
+					p.problem("%s: //kvc:typeinv <Type> [constructors] must be the doc comment of a function", p.Fset.Position(c.Pos()))
+					continue
+				}
+				tn, _ := pk.Types.Scope().Lookup(parts[0]).(*types.TypeName)
+				if tn == nil {
+					p.problem("%s: //kvc:typeinv: unknown type %s", p.Fset.Position(c.Pos()), parts[0])
+					continue
+				}
+				named, _ := tn.Type().(*types.Named)
+				if named == nil {
+					p.problem("%s: //kvc:typeinv: %s is not a named type", p.Fset.Position(c.Pos()), parts[0])
+					continue
+				}
+				ti := &TypeInv{Type: named, Pkg: pk, Decl: owner, Ctors: map[string]bool{}}
+				for _, c := range parts[1:] {
+					ti.Ctors[c] = true
+				}
+				ti.Breaches = p.encapsulationBreaches(ti)
+				p.TypeInvs = append(p.TypeInvs, ti)
+				p.Trusted = append(p.Trusted, "type invariant "+owner.Name.Name+" of "+parts[0]+" assumed at entries and after ModifiesAll calls (encapsulation checked syntactically; methods prove it as a postcondition)")
 			case "axiom":
 				if owner == nil {
 					p.problem("%s: //kvc:axiom must be the doc comment of a function", p.Fset.Position(c.Pos()))
@@ -589,6 +672,8 @@ func (p *Program) parseSpec(pk *packages.Package, fd *ast.FuncDecl, target *Func
 			sp.Modifies = append(sp.Modifies, call.Args...)
 		case "ModifiesAll":
 			sp.ModAll = true
+		case "TypeInvariants":
+			sp.UsesTypeInv = true
 		case "Allocates":
 			sp.Allocs = true
 		case "Effect":
@@ -611,4 +696,134 @@ func (p *Program) sortedKeys() []string {
 	}
 	sort.Strings(ks)
 	return ks
+}
+
+// encapsulationBreaches scans the non-test, non-contract sources of the type's package (the fields are unexported; an
+// exported field makes every loaded package a suspect and is reported) for code outside the type's methods and
+// constructors that could change the state the invariant talks about.
+func (p *Program) encapsulationBreaches(ti *TypeInv) []string {
+	var out []string
+	st, ok := ti.Type.Underlying().(*types.Struct)
+	if !ok {
+		return []string{ti.Type.Obj().Name() + " is not a struct type"}
+	}
+	fields := map[*types.Var]bool{}
+	for i := 0; i < st.NumFields(); i++ {
+		fields[st.Field(i)] = true
+		if st.Field(i).Exported() {
+			out = append(out, "field "+st.Field(i).Name()+" is exported")
+		}
+	}
+	pk := ti.Pkg
+	for _, file := range pk.Syntax {
+		name := p.Fset.Position(file.Pos()).Filename
+		if strings.HasSuffix(name, "_test.go") || strings.HasSuffix(name, "_verif.go") {
+			continue
+		}
+		for _, d := range file.Decls {
+			fd, ok := d.(*ast.FuncDecl)
+			if !ok || fd.Body == nil {
+				continue
+			}
+			if fd.Recv == nil && ti.Ctors[fd.Name.Name] {
+				continue
+			}
+			if fd.Recv != nil && len(fd.Recv.List) == 1 {
+				rt := pk.TypesInfo.TypeOf(fd.Recv.List[0].Type)
+				if ptr, ok := rt.(*types.Pointer); ok {
+					rt = ptr.Elem()
+				}
+				if types.Identical(rt, ti.Type) {
+					continue
+				}
+			}
+			var stack []ast.Node
+			ast.Inspect(fd.Body, func(n ast.Node) bool {
+				if n == nil {
+					stack = stack[:len(stack)-1]
+					return true
+				}
+				stack = append(stack, n)
+				switch x := n.(type) {
+				case *ast.CompositeLit:
+					if t := pk.TypesInfo.TypeOf(x); t != nil && types.Identical(t, ti.Type) {
+						out = append(out, fmt.Sprintf("%s: %s builds a %s value outside its constructors", p.Fset.Position(x.Pos()), fd.Name.Name, ti.Type.Obj().Name()))
+					}
+				case *ast.SelectorExpr:
+					sel := pk.TypesInfo.Selections[x]
+					if sel == nil || sel.Kind() != types.FieldVal {
+						return true
+					}
+					fv, _ := sel.Obj().(*types.Var)
+					if !fields[fv] {
+						return true
+					}
+					// allowed: a plain read m[k] / len(m) of the field; everything else may write or leak the state
+					if len(stack) >= 2 {
+						switch par := stack[len(stack)-2].(type) {
+						case *ast.IndexExpr:
+							if par.X == x && !isWritten(stack, len(stack)-2) {
+								return true
+							}
+						case *ast.CallExpr:
+							if id, ok := par.Fun.(*ast.Ident); ok && id.Name == "len" {
+								return true
+							}
+						}
+					}
+					out = append(out, fmt.Sprintf("%s: %s touches field %s of %s outside the type's methods", p.Fset.Position(x.Pos()), fd.Name.Name, fv.Name(), ti.Type.Obj().Name()))
+				}
+				return true
+			})
+		}
+	}
+	return out
+}
+
+// isWritten: the expression at stack[i] is assigned to, incremented, deleted from or has its address taken.
+func isWritten(stack []ast.Node, i int) bool {
+	if i == 0 {
+		return false
+	}
+	e := stack[i]
+	switch par := stack[i-1].(type) {
+	case *ast.AssignStmt:
+		for _, l := range par.Lhs {
+			if l == e {
+				return true
+			}
+		}
+	case *ast.IncDecStmt:
+		return par.X == e
+	case *ast.UnaryExpr:
+		return par.Op == token.AND
+	}
+	return false
+}
+
+// fieldAssignments lists every place in the non-test, non-contract sources of pk where field fv is assigned,
+// incremented or has its address taken.
+func (p *Program) fieldAssignments(pk *packages.Package, fv *types.Var) []string {
+	var out []string
+	for _, file := range pk.Syntax {
+		name := p.Fset.Position(file.Pos()).Filename
+		if strings.HasSuffix(name, "_test.go") || strings.HasSuffix(name, "_verif.go") {
+			continue
+		}
+		var stack []ast.Node
+		ast.Inspect(file, func(n ast.Node) bool {
+			if n == nil {
+				stack = stack[:len(stack)-1]
+				return true
+			}
+			stack = append(stack, n)
+			if x, ok := n.(*ast.SelectorExpr); ok {
+				if sel := pk.TypesInfo.Selections[x]; sel != nil && sel.Kind() == types.FieldVal && sel.Obj() == fv && isWritten(stack, len(stack)-1) {
+					out = append(out, fmt.Sprintf("%s: field %s is assigned after construction", p.Fset.Position(x.Pos()), fv.Name()))
+				}
+			}
+			return true
+		})
+	}
+	return out
 }
